@@ -75,7 +75,8 @@ FilterTree(f, xd) ==
 
 \* ---- Controls (4.1.11, RFC 2696) ---------------------------------------------
 PagedValue(c) == TLV(0, 1, USeq, TLV(0, 0, UInt, IntContent(c.size)) \o TLV(0, 0, UOctets, c.cookie))
-CtlHasValue(c) == IF c.known = "paged" THEN TRUE ELSE IF c.known = "noval" THEN FALSE ELSE c.hasValue
+\* a flag control ("noval") is defined without a value, but a peer may send one (legal BER): it is kept
+CtlHasValue(c) == IF c.known = "paged" THEN TRUE ELSE c.hasValue
 CtlValue(c)    == IF c.known = "paged" THEN PagedValue(c) ELSE c.value
 CtlTree(c, xd) == Cons(0, USeq, <<OctNode(c.type)>> \o Opt(c.crit \/ xd, BoolNode(c.crit))
                                  \o Opt(CtlHasValue(c), OctNode(CtlValue(c))), "seq")
@@ -307,7 +308,7 @@ KnownView(c, strict) ==
                                            size |-> p.size, cookie |-> p.cookie]]
         ELSE Bad
     ELSE IF c.type \in {ShowDelOid, ShowDeactOid} THEN
-        [ok |-> TRUE, v |-> [type |-> c.type, crit |-> c.crit, known |-> "noval", hasValue |-> FALSE, value |-> <<>>, size |-> Zero, cookie |-> <<>>]]
+        [ok |-> TRUE, v |-> [type |-> c.type, crit |-> c.crit, known |-> "noval", hasValue |-> c.hasValue, value |-> c.value, size |-> Zero, cookie |-> <<>>]]
     ELSE [ok |-> TRUE, v |-> Generic(c.type, c.crit, c.hasValue, c.value)]
 DControlK(n, strict) == LET c == DControl(n, strict) IN IF c.ok THEN KnownView(c.v, strict) ELSE Bad
 
